@@ -530,8 +530,8 @@ def replies_behind_backlog(ctx: Ctx) -> None:
 
     idx = 0
     for framing in ("plain", "noise"):
-        for first in ("block", ("partial", 900), ("partial", 4090)):
-            for drain in (None, ("rate", 11)):
+        for first in ("block", ("partial", 900), ("partial", 4090), "past-high-water"):
+            for drain in (None, ("rate", 11)) if first != "past-high-water" else (None, ("rate", 3000)):
                 idx += 1
                 if not ctx.mine(idx):
                     continue
@@ -540,9 +540,19 @@ def replies_behind_backlog(ctx: Ctx) -> None:
                     live.ensure()
                     dconn = live.dconn
                     n0 = len(dconn.received)
-                    dconn.sock.send_fault = first
-                    live.cli.send_voice_assistant_audio(b"\x09" * 4096)
-                    dconn.sock.send_fault = "block"
+                    if first == "past-high-water":
+                        # so much is queued that the transport has told the protocol to pause writing (pause_writing); the device's requests arrive
+                        # in that state, and resume_writing comes only when the queue has drained below the low-water mark
+                        from vf.sim import stall  # noqa: PLC0415
+
+                        dconn.sock.send_fault = "block"
+                        tr_ = stall.transport_of(sim, dconn)
+                        stall.fill_write_buffer(live.cli, tr_, tr_.get_write_buffer_limits()[1] + 20000)
+                        res.count("workload/replies-behind-backlog/protocol-paused", int(bool(getattr(tr_, "_protocol_paused", False))))
+                    else:
+                        dconn.sock.send_fault = first
+                        live.cli.send_voice_assistant_audio(b"\x09" * 4096)
+                        dconn.sock.send_fault = "block"
                     asked: list[str] = []
                     for step, group in enumerate((["PingRequest"], ["GetTimeRequest"], ["PingRequest", "GetTimeRequest", "PingRequest"], ["GetTimeRequest"])):
                         for name in group:
@@ -561,7 +571,7 @@ def replies_behind_backlog(ctx: Ctx) -> None:
                     sim.run_for(0.3)
                     got = [r["name"] for r in dconn.received[n0:]]
                     replies = [g for g in got if g in ("PingResponse", "GetTimeResponse")]
-                    cmds = [r["msg"].key for r in dconn.received[n0:] if r["name"] == "SwitchCommandRequest" and r["msg"] is not None]
+                    cmds = [r["msg"].key for r in dconn.received[n0:] if r["name"] == "SwitchCommandRequest" and r["msg"] is not None and 70 <= r["msg"].key <= 73]
                     res.evaluations += 1
                     res.count("workload/replies-behind-backlog")
                     res.count("workload/replies-behind-backlog/requests", len(asked))
@@ -580,6 +590,70 @@ def replies_behind_backlog(ctx: Ctx) -> None:
                         res.violation(key, f"{framing}: device asked {asked} while it was not reading; after it read again it got {replies}", case, trace=sim.trace(30))
                     elif cmds != [70, 71, 72, 73]:
                         res.violation("C12/backlog/later-requests-affected", f"{framing}: commands sent between the replies arrived as keys {cmds}", case, trace=sim.trace(30))
+
+
+def slow_subscribers(ctx: Ctx) -> None:
+    """A subscriber that takes its time (0.25 s, 3 s of loop time inside the callback - a blocking call in application code), registered through the
+    public API (the library wraps it in a functools.partial): the other subscribers of that message and the frames behind it in the chunk - more
+    messages, a PingRequest - are handled as ever, and the connection stays up."""
+    from aioesphomeapi import api_pb2 as pb
+
+    res = ctx.res
+    idx = 0
+    for framing in ("plain", "noise"):
+        for burn in (0.25, 3.0):
+            for which in ("states", "logs", "raw-callback"):
+                idx += 1
+                if not ctx.mine(idx):
+                    continue
+                with Sim() as sim:
+                    live = Live(sim, framing, record_all=False)
+                    live.ensure()
+                    cli, conn = live.cli, live.conn
+                    a: list[Any] = []
+                    b: list[Any] = []
+                    slow_done = []
+
+                    def slow(x: Any) -> None:
+                        a.append(x)
+                        if not slow_done:
+                            slow_done.append(1)
+                            sim.burn(burn)
+
+                    if which == "states":
+                        cli.subscribe_states(slow)
+                        cli.subscribe_states(b.append)
+                        msgs = [pb.SensorStateResponse(key=1, state=1.0), pb.SensorStateResponse(key=1, state=2.0)]
+                    elif which == "logs":
+                        cli.subscribe_logs(slow)
+                        cli.subscribe_logs(b.append)
+                        msgs = [pb.SubscribeLogsResponse(message=b"one"), pb.SubscribeLogsResponse(message=b"two")]
+                    else:
+                        conn.add_message_callback(slow, (pb.SensorStateResponse,))
+                        conn.add_message_callback(b.append, (pb.SensorStateResponse,))
+                        msgs = [pb.SensorStateResponse(key=1, state=1.0), pb.SensorStateResponse(key=1, state=2.0)]
+                    sim.run_for(0.01)
+                    dconn = live.dconn
+                    n_rx = len(dconn.received)
+                    dconn.outbox = []
+                    for m_ in msgs:
+                        dconn.send_msg(m_)
+                    dconn.send_msg(pb.PingRequest())
+                    out, dconn.outbox = dconn.outbox, None
+                    dconn.deliver_items(out, 0.0)
+                    sim.run_for(0.5)
+                    res.evaluations += 1
+                    res.count("workload/slow-subscribers")
+                    res.sig("slow-subscriber", framing, burn, which)
+                    case = {"framing": framing, "slow_subscriber": {"seconds_inside_the_callback": burn, "registered_by": which}}
+                    wrote = [r["name"] for r in dconn.received[n_rx:] if r["name"] in ("PingResponse",)]
+                    if conn.connection_state.name != "CONNECTED" or live.view.on_stop or sim.loop_exceptions:
+                        why = repr(live.view.fatals[0][2]) if live.view.fatals else (str(sim.loop_exceptions[0])[:200] if sim.loop_exceptions else "?")
+                        res.violation("C12/valid-message-closed-connection", f"{framing}: a subscriber that took {burn}s ended the connection: {why}", case, trace=sim.trace(30))
+                    elif len(a) != 2 or len(b) != 2:
+                        res.violation("C12/delivery-count", f"{framing}: two messages, two subscribers (one of them slow): delivered {len(a)} + {len(b)}", case, trace=sim.trace(30))
+                    elif wrote != ["PingResponse"]:
+                        res.violation("C12/ping-not-answered", f"{framing}: the PingRequest behind the slowly handled messages was answered with {wrote}", case)
 
 
 def crossing_disconnects(ctx: Ctx) -> None:
@@ -793,6 +867,7 @@ def shard(ctx: Ctx) -> None:
     undefined_frames_and_keepalive(ctx)
     crossing_disconnects(ctx)
     replies_behind_backlog(ctx)
+    slow_subscribers(ctx)
     id_sweep(ctx)
     histories(ctx)
     peer_requests_during_connect(ctx)
